@@ -316,6 +316,51 @@ pub fn corr(run: &mut Run) {
                 Non-trivial: the value has at least one element."
         .to_owned();
 
+    // ---- J: the junk slot of a party must be unrelated to the share it hides. For one-bit and
+    // three-bit secrets the junk equals the hidden share in about 1/2 resp. 1/8 of all sharings; if it
+    // never does (or always does), a single party's tuple determines the secret.
+    {
+        let mut rng = run.rng("J");
+        for (bits, n) in [(1u64, 300usize), (3u64, 600usize)] {
+            let t = if bits == 1 { scalar_type(BIT) } else { array_type(vec![bits], BIT) };
+            let mut eq = 0usize;
+            let mut total = 0usize;
+            let mut broken = false;
+            for _ in 0..n {
+                let vbits: Vec<u8> = (0..bits).map(|_| rng.below(2) as u8).collect();
+                let seed = rng.seed16();
+                let r = catch(|| -> ciphercore_base::errors::Result<Vec<Vec<Vec<u8>>>> {
+                    let tv = TypedValue::new(t.clone(), Value::from_flattened_array(&vbits, BIT)?)?;
+                    let mut prng = PRNG::new(Some(seed))?;
+                    let ps = tv.get_local_shares_for_each_party(&mut prng)?;
+                    ps.iter().map(|p| Ok(p.value.to_vector()?.iter().map(|v| crate::vals::bytes_of(v)).collect())).collect()
+                });
+                match r {
+                    Ok(Ok(ps)) if ps.len() == 3 && ps.iter().all(|p| p.len() == 3) => {
+                        for i in 0..3 {
+                            let g = (i + 2) % 3;
+                            total += 1;
+                            if ps[i][g] == ps[g][g] {
+                                eq += 1;
+                            }
+                        }
+                    }
+                    _ => {
+                        broken = true;
+                        break;
+                    }
+                }
+            }
+            run.oracle_case(&format!("junk statistics for {}-bit secrets: junk equals hidden share in {}/{}", bits, eq, total), true);
+            run.count_n(&format!("J:{}bit:junk-equals-hidden", bits), eq as u64);
+            if broken {
+                run.oracle_fail("C14:junk:error", format!("get_local_shares_for_each_party failed on a {}-bit secret", bits));
+            } else if eq == 0 || eq == total {
+                run.oracle_fail("C14:junk:correlated-with-hidden-share", format!("{}-bit secrets: the junk slot equals the hidden share in {} of {} sharings (expected about {}): a single party's tuple is correlated with the share it must not know", bits, eq, total, total >> bits));
+            }
+        }
+    }
+
     // ---------------------------------------------------------------- S and P
     let mut rng = run.rng("SP");
     let n_sp = run.tier.scale(4000, 40000);
